@@ -15,7 +15,7 @@ COMMON_ASSUMPTIONS = [
 ]
 COMMON_OUTSIDE = [
     "declarations outside the generated corpus (the solver quantifies over inputs, not over declarations)",
-    "u128/i128 reprs (kani-compiler 0.68 ICE on Option<enum with 128-bit tag>)",
+    "u128/i128 enums for which rustc places Option<E>'s niche at a negative tag value (min-1 closer to zero than max+1, e.g. any 128-bit enum starting at 0): kani-compiler 0.68 ICE (rvalue.rs:1009); other 128-bit shapes are in the corpus (K9)",
     "32-bit usize/isize targets",
     "enums with more than 1000 variants",
 ]
